@@ -360,6 +360,8 @@ func (k *K) vert(r *rec, fn *ssa.Function) (pipelines []*types.Func, inlinedPipe
 	}
 	facts = append(facts, "indices: append(indices, t[·], t[·], t[·]) with the three different vertex ids of every triangle ranged over; the array handed to the mesh is the final version")
 	r.hold("DEL-VERT", cons, pos, facts...)
+	// DEL-INPUT on the mesh builder itself (the pipeline function is checked on its own run)
+	k.ruleInput(r, cons, pos, res, map[string]bool{inputID: true}, seenFn)
 	// is the pipeline itself inlined in this function (it stores triangles into a fresh map)?
 	for _, p := range res.Paths {
 		for _, ev := range p.Events {
